@@ -34,12 +34,12 @@ import (
 type kindset uint16
 
 type kindInfo struct {
-	p       *Program
-	names   []string // kind names, index = bit
-	nilBit  kindset
-	all     kindset
-	consts  map[string][]constant.Value // method name -> per-kind constant result (nil = not constant)
-	fa      map[*ssa.Function]*kfunc
+	p      *Program
+	names  []string // kind names, index = bit
+	nilBit kindset
+	all    kindset
+	consts map[string][]constant.Value // method name -> per-kind constant result (nil = not constant)
+	fa     map[*ssa.Function]*kfunc
 }
 
 func newKindInfo(p *Program) *kindInfo {
